@@ -559,7 +559,7 @@ func (x *run) installHooks(begun chan struct{}, hooksDone *sync.WaitGroup) {
 			}
 			switch kind {
 			case "slow":
-				time.Sleep(wait / 4)
+				time.Sleep(wait * 2 / 3)
 			case "beyond":
 				// ignores its context and overruns the bound on Shutdown's return; the case does not wait for it
 				doneOnce.Do(hooksDone.Done)
